@@ -32,8 +32,16 @@ def hump_spec(rng):
 
 def base_spec(seed):
     rng = random.Random(seed)
-    if rng.random() < 0.08:
+    r0 = rng.random()
+    if r0 < 0.08:
         return hump_spec(rng)
+    if r0 < 0.16:
+        # missing values that behave like the lowest bucket; one of the re-encodings moves that bucket's boundary to exactly 0.0
+        s0 = est_gen.missing_like_zero_spec(rng)
+        for d in s0['features'].values():
+            d['values'] = [None if v is None else float(v) + 1.0 for v in d['values']]
+        s0['shift_lowest_to_zero'] = True
+        return s0
     cls = rng.choice(['BinaryCarver', 'BinaryCarver', 'ContinuousCarver', 'MulticlassCarver'])
     spec = est_gen.random_object_spec(rng, cls, n=rng.randint(16, 56))
     spec.pop('float_dtype', None)
@@ -95,11 +103,18 @@ def variants(spec, seed):
     out.append(('index_' + kind, s, list(range(n))))
     # exact affine maps of the quantitative features
     if any(d['kind'] == 'quanti' for d in spec['features'].values()):
+        maps = []
+        if spec.get('shift_lowest_to_zero'):
+            lows = [min(v for v in d['values'] if v is not None) for d in spec['features'].values() if d['kind'] == 'quanti']
+            maps.append((1.0, -min(lows)))
+            maps.append((2.0, -2.0 * min(lows)))
         for _ in range(2):
             a = rng.choice([2.0, 0.5, 4.0, 1024.0, 0.25, 8.0, 2.0 ** -40, 2.0 ** 30])
             b = rng.choice([0.0, 1.0, -3.0, 0.5, 100.0, 2.0 ** 27, -(2.0 ** 30)])
             if a < 1e-6:
                 b = 0.0
+            maps.append((a, b))
+        for a, b in maps:
             s = copy.deepcopy(spec)
             ok = True
             for f, d in s['features'].items():
